@@ -100,18 +100,22 @@ FLAG_ARGV = {"init": "--init", "fmt": "--fmt", "vars": "--vars", "clean": "--cle
              "force": "--force", "task": "hello"}
 
 
+GITIGNORES = ["node_modules\n*.log\n", "node_modules\n*.log", "node_modules\r\n*.log\r\n", "node_modules\n*.log\n\n\n", "", "\n", "a\n\r\n"]
+
+
 def c19_scenarios(ctx, abstract, tier):
     scen, meta = [], []
-    variants = [0] if tier == "quick" else [0, 1]
     for a in abstract:
+        # the bytes of an existing .gitignore matter to --init only ("appends"): every content variant there, one elsewhere
+        variants = range(len(GITIGNORES)) if (a["gitignore"] and "init" in a["flags"]) else ([0] if tier == "quick" else [0, 1])
         for var in variants:
             files = [{"p": "proj/", "dir": True}, {"p": "proj/sub/deep/", "dir": True}, {"p": "proj/a.txt", "c": "a\n"}, {"p": "proj/sub/b.txt", "c": "b\n"},
                      {"p": "proj/sub/deep/keep.md", "c": "keep\n"}, {"p": "other/x.txt", "c": "x\n"}]
             if a["kind"] != "missing":
                 files.append({"p": "proj/spokfile", "c": KIND_TEXT[a["kind"]]})
             if a["gitignore"]:
-                files.append({"p": "proj/.gitignore", "c": "node_modules\n*.log" + ("\n" if var == 0 else "")})
-                files.append({"p": "proj/sub/deep/.gitignore", "c": "tmp/\n"})
+                files.append({"p": "proj/.gitignore", "c": GITIGNORES[var]})
+                files.append({"p": "proj/sub/deep/.gitignore", "c": "tmp/" + GITIGNORES[var]})
             if a["dotenv"]:
                 files.append({"p": "proj/.env", "c": "FROM_DOTENV=1\n"})
             cwd = "proj" if a["cwd"] == "root" else "proj/sub/deep"
@@ -261,7 +265,7 @@ def run_c09b(ctx):
 
 
 # ------------------------------------------------------------------ C13
-VALS = ["v", "a b", "$HOME", "{x}", "}}", "a'b", ""]
+VALS = ["v", "a b", "$HOME", "{x}", "}}", "a'b", "", "{{.AMBV}} z", "{{ x"]
 NAMESV = ["FRESHV", "AMBV", "DOTV", "BOTHV"]
 AMBIENT = {"AMBV": "ambient-value", "BOTHV": "ambient-both", "LAYBOTH": "lay-ambient", "LAYAMB": "lay-ambient-only"}
 DOTENV = "DOTV=dotenv-value\nBOTHV=dotenv-both\nLAYBOTH=lay-dotenv\nLAYDOT=lay-dotenv-only\n"
@@ -309,6 +313,9 @@ def c13_scenarios(tier, seed):
             n = v["name"]
             cs.append({"pieces": [{"k": "lit", "s": "echo pre"}, {"k": "t", "s": n}, {"k": "lit", "s": "post "}, {"k": "t", "s": n}], "envname": ""})
             cs.append({"pieces": [{"k": "lit", "s": 'echo "'}, {"k": "e", "s": n}, {"k": "lit", "s": '"'}], "envname": n})
+            # the environment of a PROGRAM the command starts (not the shell's own expansion of $NAME)
+            cs.append({"pieces": [{"k": "lit", "s": "printenv " + n}], "envname": n})
+            cs.append({"pieces": [{"k": "lit", "s": "sh -c 'printf \"%s\\n\" \"$" + n + "\"'"}], "envname": n})
         cs.append({"pieces": [{"k": "lit", "s": "echo plain | cat"}], "envname": ""})
         cs.append({"pieces": [{"k": "lit", "s": 'echo "'}, {"k": "e", "s": "LAYBOTH"}, {"k": "lit", "s": "/"}, {"k": "e", "s": "LAYDOT"}, {"k": "lit", "s": "/"},
                               {"k": "e", "s": "LAYAMB"}, {"k": "lit", "s": '"'}], "envname": ""})
@@ -385,12 +392,13 @@ def c12_scenarios(tier, seed):
     tree = ["bin/tool", "bin/keep.txt", "build/a.o", "build/b.o", "build/readme.md", "dist/pkg/x.tar", "dist/pkg/sub/y.tar", "src/main.go", "src/a.o", "out.txt", "notes.md",
             ".hidden/z.o", "decoy/out.txt", "build.log", "out.txt.bak", "dist/pkg.sha", ".x_cache/f.bin", "my_cache/f.bin", "my_cache/sub/g.bin", "cache.db", "zcache"]
     kinds = ["litfile", "litdir", "named_rel", "named_join", "glob", "glob_none", "missing", "litdir_build", "litfile_buildlog", "glob_top", "litfile_bak", "litfile_sha",
+             "lit_linkdir", "named_linkfile",
              "named_empty", "named_dot", "lit_parent", "named_abs_outside", "glob_spok", "lit_spokfile"]
     n = 400 if tier == "quick" else 20000
     for it in range(n):
         present = [p for p in tree if rnd.random() < 0.75]
         nout = rnd.randint(0, 5)
-        chosen = [rnd.choice(kinds[:12] if rnd.random() < 0.8 else kinds) for _ in range(nout)]
+        chosen = [rnd.choice(kinds[:14] if rnd.random() < 0.8 else kinds) for _ in range(nout)]
         cwd_nested = rnd.random() < 0.3
         elsewhere = (not cwd_nested) and rnd.random() < 0.2      # run from an unrelated directory with --spokfile
         has_clean = rnd.random() < 0.15
@@ -401,6 +409,10 @@ def c12_scenarios(tier, seed):
                 outs.append('"out.txt"'); des.append(["proj", "out.txt"]); alt.append(["proj", "out.txt"])
             elif kind == "litdir":
                 outs.append('"dist/pkg"'); des.append(["proj", "dist", "pkg"]); alt.append(["proj", "dist", "pkg"])
+            elif kind == "lit_linkdir":          # the output is a symbolic link (to a directory that is not an output): the link goes, its target stays
+                outs.append('"current"'); des.append(["proj", "current"]); alt.append(["proj", "current"])
+            elif kind == "named_linkfile":
+                vars_.append(("LATEST%s" % "ABCDE"[k], '"latest.txt"')); outs.append("LATEST%s" % "ABCDE"[k]); des.append(["proj", "latest.txt"]); alt.append(cwdp + ["latest.txt"])
             elif kind == "missing":
                 outs.append('"nothere/file.bin"'); des.append(["proj", "nothere", "file.bin"]); alt.append(["proj", "nothere", "file.bin"])
             elif kind == "named_rel":
@@ -454,7 +466,9 @@ def c12_scenarios(tier, seed):
         if has_clean:
             text += "task clean() {\n    echo cleaned >> %s\n}\n\n" % LOG
         files = [{"p": "proj/", "dir": True}, {"p": "proj/src/", "dir": True}, {"p": "other/", "dir": True}, {"p": "other/gen.txt", "c": "gen"}, {"p": "other/keep.txt", "c": "keep"},
-                 {"p": "proj/spokfile", "c": text}]
+                 {"p": "proj/spokfile", "c": text},
+                 {"p": "proj/releases/v1/app.bin", "c": "v1"}, {"p": "proj/releases/v1.txt", "c": "v1"},
+                 {"p": "proj/current", "link": "releases/v1"}, {"p": "proj/latest.txt", "link": "releases/v1.txt"}]
         for p in present:
             files.append({"p": "proj/" + p, "c": p})
         steps = []
